@@ -345,6 +345,7 @@ class Respondent(httping.Parsent):
         self.status = None
         self.code = None
         self.reason = None
+        self.redirectant = None  # of the previous response
         self.evented = None
 
     def close(self):
